@@ -33,6 +33,21 @@ def run_seed(sid, all_checks=False):
         if p.returncode != 0:
             return [{"id": sid, "ok": False, "status": "patch does not apply: " + p.stderr[-200:]}]
         env = dict(os.environ, JASM_VERIF_REPO=wt)
+        if meta.get("expect_no_alarm"):
+            # a behaviour-preserving refactoring: none of the four checks may alarm
+            t0 = time.monotonic()
+            exits = {}
+            esc = 0
+            for prop in ("C14", "C15", "C17", "C20"):
+                r = subprocess.run([os.path.join(VERIF, "check"), prop, "--tier", "quick", "--no-evidence"], env=env, capture_output=True, text=True)
+                exits[prop] = r.returncode
+                esc += r.stderr.count("seam-escape")
+                for mm in re.finditer(r"^VIOLATION property=\S+ replay=(\S+)$", r.stdout, re.M):
+                    try:
+                        os.remove(mm.group(1))
+                    except OSError:
+                        pass
+            return [{"id": sid, "check": "all four", "exits": exits, "seam_escape_warnings": esc, "ok": all(v == 0 for v in exits.values()), "wall": round(time.monotonic() - t0, 1)}]
         for prop in (meta["detected_by"] if all_checks else meta["detected_by"][:1]):
             t0 = time.monotonic()
             r = subprocess.run([os.path.join(VERIF, "check"), prop, "--tier", "quick", "--no-evidence"], env=env, capture_output=True, text=True)
@@ -73,7 +88,7 @@ def main(argv=None):
             n += 1
             print(("ok   " if r["ok"] else "FAIL ") + " ".join(f"{k}={v}" for k, v in r.items() if k != "ok"), flush=True)
             bad += 0 if r["ok"] else 1
-    print(f"[seeded] {n - bad}/{n} detected with reproducing replay")
+    print(f"[seeded] {n - bad}/{n} as expected (breaking changes detected with a reproducing replay; refactorings without alarm)")
     return 0 if bad == 0 else 2
 
 
